@@ -205,6 +205,18 @@ class _Canon2(ast.NodeTransformer):
     def visit_With(self, node: ast.With):
         # `with ExitStack() as s: s.callback(f, *a); BODY` is `try: BODY finally: f(*a)` (callbacks run last-in first-out)
         self.generic_visit(node)
+        # `with suppress(E1, E2): BODY` is `try: BODY except (E1, E2): pass`
+        if len(node.items) == 1 and node.items[0].optional_vars is None and isinstance(node.items[0].context_expr, ast.Call) \
+                and ast.unparse(node.items[0].context_expr.func).split(".")[-1] == "suppress" and node.items[0].context_expr.args \
+                and not node.items[0].context_expr.keywords:
+            excs = node.items[0].context_expr.args
+            typ = excs[0] if len(excs) == 1 else ast.Tuple(elts=list(excs), ctx=ast.Load())
+            h = ast.ExceptHandler(type=typ, name=None, body=[ast.Pass()])
+            t = ast.Try(body=node.body, handlers=[h], orelse=[], finalbody=[])
+            for x in (h, t):
+                ast.copy_location(x, node)
+            ast.fix_missing_locations(t)
+            return t
         if len(node.items) == 1 and isinstance(node.items[0].context_expr, ast.Call) and not node.items[0].context_expr.args \
                 and (ast.unparse(node.items[0].context_expr.func)).split(".")[-1] == "ExitStack" and isinstance(node.items[0].optional_vars, ast.Name):
             nm = node.items[0].optional_vars.id
@@ -472,8 +484,155 @@ def _set_updates(fn: ast.AST) -> None:
     go(fn.body)
 
 
+def _module_passes(tree: ast.Module) -> None:
+    """Spellings that need module-level facts (in place):
+    * `getattr(x, "name")` (two arguments, constant name) is `x.name`;
+    * `for v in NAMES: BODY` with NAMES a literal tuple / list of constants - written in place or bound once at module level - and at
+      most 8 elements is BODY once per element, v replaced by the constant (a table of field names driving a loop of assignments);
+    * `C(a, b, ..)._asdict()` with C a NamedTuple class of this module is the dict display `{"f1": a, "f2": b, ..}`;
+    * `v = partial(F, **kw)` bound once in a function: `v(..)` is `F(.., **kw)`, and `v` handed as the callable of
+      submit / to_thread / to_thread_in_executor is `F` followed by those keywords."""
+    import copy as _c
+
+    consts: Dict[str, List[ast.AST]] = {}
+    ntuples: Dict[str, List[str]] = {}
+    for st in tree.body:
+        if isinstance(st, ast.Assign) and len(st.targets) == 1 and isinstance(st.targets[0], ast.Name) and isinstance(st.value, (ast.Tuple, ast.List)) \
+                and st.value.elts and all(isinstance(e, ast.Constant) for e in st.value.elts):
+            consts[st.targets[0].id] = list(st.value.elts)
+        if isinstance(st, ast.ClassDef) and any(ast.unparse(b).split(".")[-1] == "NamedTuple" for b in st.bases):
+            ntuples[st.name] = [b.target.id for b in st.body if isinstance(b, ast.AnnAssign) and isinstance(b.target, ast.Name)]
+    rebound = {t.id for n in ast.walk(tree) if isinstance(n, (ast.Assign, ast.AugAssign, ast.AnnAssign)) and n not in tree.body
+               for t in ast.walk(n.targets[0] if isinstance(n, ast.Assign) else n.target) if isinstance(t, ast.Name) and isinstance(t.ctx, ast.Store)}
+
+    class _G(ast.NodeTransformer):
+        def visit_Call(self, node: ast.Call):
+            self.generic_visit(node)
+            if isinstance(node.func, ast.Name) and node.func.id == "getattr" and len(node.args) == 2 and not node.keywords \
+                    and isinstance(node.args[1], ast.Constant) and isinstance(node.args[1].value, str) and node.args[1].value.isidentifier():
+                return ast.copy_location(ast.Attribute(value=node.args[0], attr=node.args[1].value, ctx=ast.Load()), node)
+            if isinstance(node.func, ast.Attribute) and node.func.attr == "_asdict" and not node.args and isinstance(node.func.value, ast.Call) \
+                    and isinstance(node.func.value.func, ast.Name) and node.func.value.func.id in ntuples:
+                c = node.func.value
+                flds = ntuples[c.func.id]
+                if not any(isinstance(a, ast.Starred) for a in c.args) and len(c.args) + len(c.keywords) == len(flds) and all(k.arg in flds for k in c.keywords):
+                    vals = dict(zip(flds, c.args))
+                    vals.update({k.arg: k.value for k in c.keywords})
+                    if set(vals) == set(flds):
+                        return ast.copy_location(ast.Dict(keys=[ast.Constant(value=f_) for f_ in flds], values=[vals[f_] for f_ in flds]), node)
+            return node
+
+    # `v = C(..)` bound once and used once, as `v._asdict()`: the use is read as `C(..)._asdict()`
+    if ntuples:
+        for fn in [n for n in ast.walk(tree) if isinstance(n, (ast.FunctionDef, ast.AsyncFunctionDef))]:
+            asg = {}
+            for n in ast.walk(fn):
+                if isinstance(n, ast.Assign) and len(n.targets) == 1 and isinstance(n.targets[0], ast.Name):
+                    asg.setdefault(n.targets[0].id, []).append(n)
+            for name, ds in asg.items():
+                if len(ds) != 1 or not (isinstance(ds[0].value, ast.Call) and isinstance(ds[0].value.func, ast.Name) and ds[0].value.func.id in ntuples):
+                    continue
+                loads = [x for x in ast.walk(fn) if isinstance(x, ast.Name) and x.id == name and isinstance(x.ctx, ast.Load)]
+                uses = [x for x in ast.walk(fn) if isinstance(x, ast.Call) and isinstance(x.func, ast.Attribute) and x.func.attr == "_asdict"
+                        and isinstance(x.func.value, ast.Name) and x.func.value.id == name]
+                if len(loads) == 1 and len(uses) == 1:
+                    uses[0].func.value = _c.deepcopy(ds[0].value)
+    tree_new = _G().visit(tree)
+    assert tree_new is tree
+
+    def unroll(stmts: List[ast.stmt]) -> List[ast.stmt]:
+        out: List[ast.stmt] = []
+        for st in stmts:
+            for fld in ("body", "orelse", "finalbody"):
+                v = getattr(st, fld, None)
+                if isinstance(v, list) and v and isinstance(v[0], ast.stmt):
+                    setattr(st, fld, unroll(v))
+            if isinstance(st, ast.Try):
+                for h in st.handlers:
+                    h.body = unroll(h.body)
+            elts = None
+            if isinstance(st, ast.For) and not st.orelse and isinstance(st.target, ast.Name):
+                if isinstance(st.iter, (ast.Tuple, ast.List)) and st.iter.elts and all(isinstance(e, ast.Constant) for e in st.iter.elts):
+                    elts = list(st.iter.elts)
+                elif isinstance(st.iter, ast.Name) and st.iter.id in consts and st.iter.id not in rebound:
+                    elts = consts[st.iter.id]
+            if elts is not None and len(elts) <= 8 and not any(isinstance(x, (ast.Break, ast.Continue)) for b in st.body for x in ast.walk(b)) \
+                    and not any(isinstance(x, ast.Name) and x.id == st.target.id and isinstance(x.ctx, ast.Store) for b in st.body for x in ast.walk(b)):
+                var = st.target.id
+
+                class _S(ast.NodeTransformer):
+                    def __init__(self, e):
+                        self.e = e
+
+                    def visit_Name(self, n):
+                        return _c.deepcopy(self.e) if n.id == var and isinstance(n.ctx, ast.Load) else n
+
+                for e in elts:
+                    for b in st.body:
+                        nb = _G().visit(_S(e).visit(_c.deepcopy(b)))
+                        ast.copy_location(nb, st)
+                        out.append(nb)
+                continue
+            out.append(st)
+        return out
+
+    def partials(fn: ast.AST) -> None:
+        defs: Dict[str, List[ast.Assign]] = {}
+        for n in ast.walk(fn):
+            if isinstance(n, ast.Assign) and len(n.targets) == 1 and isinstance(n.targets[0], ast.Name):
+                defs.setdefault(n.targets[0].id, []).append(n)
+        table = {}
+        for name, ds in defs.items():
+            if len(ds) == 1 and isinstance(ds[0].value, ast.Call) and ast.unparse(ds[0].value.func).split(".")[-1] == "partial" \
+                    and len(ds[0].value.args) == 1 and all(k.arg is not None for k in ds[0].value.keywords):
+                table[name] = ds[0]
+        if not table:
+            return
+
+        class _P(ast.NodeTransformer):
+            def visit_Call(self, node: ast.Call):
+                self.generic_visit(node)
+                if isinstance(node.func, ast.Name) and node.func.id in table:
+                    d = table[node.func.id].value
+                    return ast.copy_location(ast.Call(func=_c.deepcopy(d.args[0]), args=node.args, keywords=[_c.deepcopy(k) for k in d.keywords] + node.keywords), node)
+                callee = ast.unparse(node.func).split(".")[-1]
+                if callee in ("submit", "to_thread", "to_thread_in_executor") and node.args and isinstance(node.args[0], ast.Name) and node.args[0].id in table \
+                        and not any(k.arg is None for k in node.keywords):
+                    d = table[node.args[0].id].value
+                    node.args = [_c.deepcopy(d.args[0])] + node.args[1:]
+                    node.keywords = node.keywords + [_c.deepcopy(k) for k in d.keywords]
+                return node
+
+        _P().visit(fn)
+        # a partial all of whose uses were rewritten is dead: the binding goes
+        dead = {name for name in table if not any(isinstance(x, ast.Name) and x.id == name and isinstance(x.ctx, ast.Load) for x in ast.walk(fn))}
+        if dead:
+            def prune(stmts: List[ast.stmt]) -> List[ast.stmt]:
+                out = []
+                for st in stmts:
+                    if isinstance(st, ast.Assign) and len(st.targets) == 1 and isinstance(st.targets[0], ast.Name) and st.targets[0].id in dead \
+                            and st is table[st.targets[0].id]:
+                        continue
+                    for fld in ("body", "orelse", "finalbody"):
+                        v = getattr(st, fld, None)
+                        if isinstance(v, list) and v and isinstance(v[0], ast.stmt) and not isinstance(st, (ast.FunctionDef, ast.AsyncFunctionDef, ast.ClassDef)):
+                            setattr(st, fld, prune(v) or [ast.copy_location(ast.Pass(), st)])
+                    if isinstance(st, ast.Try):
+                        for h in st.handlers:
+                            h.body = prune(h.body) or [ast.copy_location(ast.Pass(), st)]
+                    out.append(st)
+                return out
+
+            fn.body = prune(fn.body) or [ast.Pass()]
+
+    tree.body = unroll(tree.body)
+    for fn in [n for n in ast.walk(tree) if isinstance(n, (ast.FunctionDef, ast.AsyncFunctionDef))]:
+        partials(fn)
+
+
 def canonical(tree: ast.Module) -> ast.Module:
     tree = _Canon().visit(tree)
+    _module_passes(tree)
     tree = _Canon2().visit(tree)
     for fn in [n for n in ast.walk(tree) if isinstance(n, (ast.FunctionDef, ast.AsyncFunctionDef))]:
         _aliases(fn)
@@ -538,6 +697,9 @@ class Program:
 
         real = {name: m.tree for name, m in self.modules.items() if not name.endswith("_twzsa_control")}
         self.inlined: List[str] = inline_new_helpers(real, set(KNOWN_FUNCTIONS))
+        if self.inlined:
+            for t in real.values():
+                _module_passes(t)  # record displays / constant loops / partials that the expansion brought into place
         self.inlined += scalarize_new_aggregates(real, set(KNOWN_CLASSES))
         if self.inlined:
             # the expanded bodies bring their own shortcuts (aliases, explaining variables): read them in the usual form too
